@@ -4,18 +4,8 @@
 //!   aisverif <ID> --replay <file>       re-execute one saved input, no generation
 //!   aisverif selftest                   self-tests of the reference models
 
-#![allow(dead_code)]
-
-mod adapter;
-mod engine;
-mod gen;
-mod outcome;
-mod props;
-mod refmodel;
-mod typed;
-mod util;
-
-use engine::{infra_error, Ctx, Input, Rec, Tier, Verdict};
+use aisverif::engine::{self, infra_error, Ctx, Input, Rec, Tier, Verdict};
+use aisverif::{adapter, fuzzglue, props, refmodel, util};
 
 fn main() {
     let args: Vec<String> = std::env::args().collect();
@@ -28,6 +18,24 @@ fn main() {
             }
             Err(e) => infra_error(&format!("reference model self-test failed: {}", e)),
         }
+    }
+    if args.len() >= 3 && args[1] == "fuzz-seeds" {
+        fuzzglue::write_seeds(&args[2]).unwrap_or_else(|e| infra_error(&format!("cannot write seeds: {}", e)));
+        return;
+    }
+    if args.len() >= 5 && args[1] == "fuzz-convert" {
+        // aisverif fuzz-convert <fz_lines|fz_payload> <ID> <artifact>  -> prints the Input as JSON
+        let data = std::fs::read(&args[4]).unwrap_or_else(|e| infra_error(&format!("cannot read {}: {}", args[4], e)));
+        let input = match args[2].as_str() {
+            "fz_lines" => fuzzglue::decode_lines(&data, &args[3]),
+            "fz_payload" => fuzzglue::decode_payload(&data, &args[3]),
+            other => infra_error(&format!("unknown fuzz target {}", other)),
+        };
+        match input {
+            Some(i) => println!("{}", i.to_json()),
+            None => infra_error("the artifact does not decode into an input for that property"),
+        }
+        return;
     }
     if args.len() < 3 {
         eprintln!("usage: aisverif <ID> <quick|thorough> | aisverif <ID> --replay <file> | aisverif selftest");
@@ -75,6 +83,35 @@ fn replay(prop: &'static str, file: &str) -> i32 {
     };
     let check = props::check_fn(prop);
     let findings = engine::load_findings();
+    // histories are first reduced by greedy line removal (keeps the failure, drops what is not needed)
+    let input = if std::env::var("AISVERIF_SHRINK").is_ok() {
+        let mut cur = input;
+        let cfg0 = cfgs[0];
+        let fails = |i: &Input| {
+            let mut r = Rec::default();
+            matches!(check(&sub, cfg0, i, &mut r), Verdict::Fail { .. })
+        };
+        if let Input::History { lines } = &cur {
+            let mut lines = lines.clone();
+            if fails(&cur) {
+                let mut i = 0;
+                while i < lines.len() && lines.len() > 1 {
+                    let mut cand = lines.clone();
+                    cand.remove(i);
+                    if fails(&Input::History { lines: cand.clone() }) {
+                        lines = cand;
+                    } else {
+                        i += 1;
+                    }
+                }
+                cur = Input::History { lines };
+                println!("shrunk input: {}", cur.to_json());
+            }
+        }
+        cur
+    } else {
+        input
+    };
     let mut failed = false;
     for cfg in cfgs {
         let mut rec = Rec::default();
